@@ -35,12 +35,12 @@ type Table struct {
 }
 
 type Line struct {
-	Kind      string     `json:"kind"`
-	Site      string     `json:"site"`
-	Row       [][]Term   `json:"row"`
-	Re        string     `json:"re"`
-	Matched   []string   `json:"matched"`
-	Reference []string   `json:"reference"`
+	Kind      string   `json:"kind"`
+	Site      string   `json:"site"`
+	Row       [][]Term `json:"row"`
+	Re        string   `json:"re"`
+	Matched   []string `json:"matched"`
+	Reference []string `json:"reference"`
 }
 
 const ns = "n1"
@@ -333,10 +333,30 @@ func TestSelectors(t *testing.T) {
 			}
 		}
 
+		// kind watches with an ID query (bootstrap contents), in memory and through gRPC
+		watchSite := func(st state.CoreState) []string {
+			wctx, wcancel := context.WithCancel(ctx)
+			defer wcancel()
+
+			wopts := []state.WatchKindOption{state.WithBootstrapContents(true)}
+			if re != "" {
+				wopts = append(wopts, state.WatchWithIDQuery(resource.IDRegexpMatch(regexp.MustCompile(re))))
+			}
+
+			ch := make(chan state.Event)
+			if werr := st.WatchKind(wctx, kind, ch, wopts...); werr != nil {
+				return []string{"!error: " + werr.Error()}
+			}
+
+			return watchIDs(ch, -1)
+		}
+
 		for site, ids := range map[string][]string{
-			"inmem-list":  listIDs(direct.List(ctx, kind, opts...)),
-			"cache-list":  listIDs(cache.List(ctx, kind, opts...)),
-			"remote-list": listIDs(remote.List(ctx, kind, opts...)),
+			"inmem-list":             listIDs(direct.List(ctx, kind, opts...)),
+			"cache-list":             listIDs(cache.List(ctx, kind, opts...)),
+			"remote-list":            listIDs(remote.List(ctx, kind, opts...)),
+			"inmem-watch-bootstrap":  watchSite(direct),
+			"remote-watch-bootstrap": watchSite(remote),
 		} {
 			tr.Emit(Line{Kind: "id", Site: site, Row: [][]Term{}, Re: re, Matched: names(tab.Maps, ids), Reference: names(tab.Maps, ref)})
 		}
